@@ -1,0 +1,38 @@
+//go:build verif
+
+// Contracts for the deductive checker in /verif (govc). Comment-only; ignored without the
+// "verif" build tag.
+//
+// C19 (armor half): the symmetric key a private key is locked and unlocked with is derived from the SAME function of
+// the passphrase as typed - scrypt over exactly its bytes and the stored salt - on both sides. mk.key observes the key
+// handed to the AES-GCM helper last; scrypt_key is the (uninterpreted) key derivation.
+
+package mintkey
+
+//@ ghost mk.key Bytes
+
+//@ assumed func EncryptAESGCM(key []byte, src []byte) (out []byte, err error)
+//@   mode value
+//@   modifies mk.key
+//@   ensures mk.key == key
+//@ assumed func DecryptAESGCM(key []byte, enc []byte) (out []byte, err error)
+//@   mode value
+//@   modifies mk.key
+//@   ensures mk.key == key
+
+// the key that locks a private key is scrypt(passphrase bytes, fresh salt), and that salt is what is returned
+//@ func encryptPrivKey(privKey posCrypto.PrivateKey, passphrase string) (saltBytes []byte, encBytes []byte)
+//@   mode value
+//@   props C19
+//@   modifies mk.key
+//@   keeps mk.
+//@   ensures [derived] mk.key == scrypt_key(bytes(passphrase), saltBytes)
+
+// the key that unlocks it is scrypt(passphrase bytes, stored salt): the passphrase is used verbatim, exactly as when
+// locking (seed C19f trims it on this side only)
+//@ func decryptPrivKey(saltBytes []byte, encBytes []byte, passphrase string) (privKey posCrypto.PrivateKey, err error)
+//@   mode value
+//@   props C19
+//@   modifies mk.key
+//@   keeps mk.
+//@   ensures [derived] mk.key == scrypt_key(bytes(passphrase), saltBytes)
